@@ -4,6 +4,7 @@ package tables
 
 import (
 	"encoding/binary"
+	"errors"
 	"fmt"
 )
 
@@ -59,18 +60,35 @@ type ScriptList struct {
 
 func (sl *ScriptList) parseScripts(src []byte) error {
 	sl.Scripts = make([]Script, len(sl.Records))
+	// Several records may share the same table, which is then parsed once.
+	// Distinct tables do not overlap: they can't use more bytes than [src] has.
+	seen, total := make(map[uint16]int), 0 // offset -> index of the first record using it
 	for i, rec := range sl.Records {
-		var err error
+		if j, ok := seen[rec.Offset]; ok {
+			sl.Scripts[i] = sl.Scripts[j]
+			continue
+		}
+		seen[rec.Offset] = i
+
+		var (
+			err  error
+			read int
+		)
 		if L := len(src); L < int(rec.Offset) {
 			return fmt.Errorf("EOF: expected length: %d, got %d", rec.Offset, L)
 		}
-		sl.Scripts[i], _, err = ParseScript(src[rec.Offset:])
+		sl.Scripts[i], read, err = ParseScript(src[rec.Offset:])
 		if err != nil {
 			return err
+		}
+		if total += read; total > len(src) {
+			return errOverlappingTables
 		}
 	}
 	return nil
 }
+
+var errOverlappingTables = errors.New("invalid layout table: overlapping subtables")
 
 type Script struct {
 	DefaultLangSys *LangSys          `offsetSize:"Offset16"`    // Offset to default LangSys table, from beginning of Script table — may be NULL
@@ -80,14 +98,28 @@ type Script struct {
 
 func (sc *Script) parseLangSys(src []byte) error {
 	sc.LangSys = make([]LangSys, len(sc.LangSysRecords))
+	// same logic as in [ScriptList.parseScripts]
+	seen, total := make(map[uint16]int), 0
 	for i, rec := range sc.LangSysRecords {
-		var err error
+		if j, ok := seen[rec.Offset]; ok {
+			sc.LangSys[i] = sc.LangSys[j]
+			continue
+		}
+		seen[rec.Offset] = i
+
+		var (
+			err  error
+			read int
+		)
 		if L := len(src); L < int(rec.Offset) {
 			return fmt.Errorf("EOF: expected length: %d, got %d", rec.Offset, L)
 		}
-		sc.LangSys[i], _, err = ParseLangSys(src[rec.Offset:])
+		sc.LangSys[i], read, err = ParseLangSys(src[rec.Offset:])
 		if err != nil {
 			return err
+		}
+		if total += read; total > len(src) {
+			return errOverlappingTables
 		}
 	}
 	return nil
@@ -106,14 +138,28 @@ type FeatureList struct {
 
 func (fl *FeatureList) parseFeatures(src []byte) error {
 	fl.Features = make([]Feature, len(fl.Records))
+	// same logic as in [ScriptList.parseScripts]
+	seen, total := make(map[uint16]int), 0
 	for i, rec := range fl.Records {
-		var err error
+		if j, ok := seen[rec.Offset]; ok {
+			fl.Features[i] = fl.Features[j]
+			continue
+		}
+		seen[rec.Offset] = i
+
+		var (
+			err  error
+			read int
+		)
 		if L := len(src); L < int(rec.Offset) {
 			return fmt.Errorf("EOF: expected length: %d, got %d", rec.Offset, L)
 		}
-		fl.Features[i], _, err = ParseFeature(src[rec.Offset:])
+		fl.Features[i], read, err = ParseFeature(src[rec.Offset:])
 		if err != nil {
 			return err
+		}
+		if total += read; total > len(src) {
+			return errOverlappingTables
 		}
 	}
 	return nil
